@@ -524,27 +524,43 @@ def k1_reader(h, sid, t0, seq0=None):
     for conn in conns:
         if any(after(sq, t) and d == '1' for (sq, t, d) in conn.sent_s):
             return 'despite-reader'
+    if seq0 is not None and any(
+            e['ev'] == 'connect' and e['sid'] == sid and e['seq'] > seq0
+            for e in h.app.events):
+        # K10: disconnect() (all sessions) caught a session in the middle of
+        # its open request; that request fails and nobody reads the queue
+        return 'session-being-opened'
     return 'reader-refused' if refused else 'no-reader'
 
 
 def k1_reader_all(h, a):
-    """disconnect() without a sid: it hangs on the first session nobody
-    reads."""
-    tb = a.get('table_before') or {}
-    sids = {sid for sid, st in tb.items()
-            if st is not None and not st.get('closed')}
-    # (also sessions that entered the table while the call was at work:
-    # every queue that got a CLOSE packet after the call began)
+    """disconnect() without a sid hangs on a session whose queue nobody
+    reads (threaded: it closes them one after the other, asyncio: all at
+    once and waits for all).  Look at every session that got a CLOSE packet
+    after the call began; the one that is not 'despite-reader' explains the
+    hang."""
+    kinds = set()
     for sid, q in h.world.qlog.items():
-        if any(pt == R.CLOSE and sq > a['seq_start'] for (sq, _t, pt, _d)
-               in q):
-            sids.add(sid)
-    kinds = [k1_reader(h, sid, a['t_start'], a['seq_start'])
-             for sid in sorted(sids)]
-    for k in ('packet-behind-close', 'no-reader', 'reader-refused'):
+        # (the end marker is queued even when the CLOSE packet is not - a
+        # session whose PING has timed out gets none)
+        if any(pt in (R.CLOSE, None) and sq > a['seq_start']
+               for (sq, _t, pt, _d) in q):
+            kinds.add(k1_reader(h, sid, a['t_start'], a['seq_start']))
+    for k in ('packet-behind-close', 'session-being-opened', 'no-reader',
+              'reader-refused'):
         if k in kinds:
             return k
     return 'despite-reader' if kinds else 'no-reader'
+
+
+def _disconnect_all_at(h, seq):
+    """The disconnect() (all sessions) call that was at work at event seq."""
+    for a in h.world.api_calls:
+        if a['name'] == 'disconnect' and 'sid' not in a and \
+                a['seq_start'] is not None and a['seq_start'] < seq and \
+                (a['seq_end'] is None or a['seq_end'] > seq):
+            return a
+    return None
 
 
 def _stuck_all(h):
@@ -617,9 +633,13 @@ def _check_reason(f, sid, s, d, causes):
                 reason not in first['reasons']:
             sig = '%s|not-first-cause|%s|first=%s' % (impl, reason,
                                                       first['kind'])
-            if first.get('all_sessions') and _disconnect_all_stuck(f.h):
+            slow = _disconnect_all_at(f.h, d['seq'])
+            if first.get('all_sessions') and slow is not None:
+                # disconnect() closes the sessions one after the other; while
+                # it waits for the queue of one of them to be read (K1) the
+                # others stay open and can end for other reasons
                 sig = '%s|disconnect-all-blocked|%s' % (
-                    impl, k1_reader_all(f.h, _stuck_all(f.h)))
+                    impl, k1_reader_all(f.h, slow))
             out.append(V('disconnect-reason', sig,
                          'session %s: first cause was %s at t=%.4f (all '
                          'others strictly later) but the reason is %r'
